@@ -20,6 +20,8 @@ def lookup {α β : Type} [DecidableEq α] (t : List (α × β)) (a : α) : Opti
 /-- text is carried as its list of UTF-8 bytes so that equality reduces in the kernel -/
 abbrev Str := List Nat
 
-def Str.ofString (s : String) : Str := s.toUTF8.toList.map (·.toNat)
+/-- code points of the text; equal to its UTF-8 bytes for the ASCII identifiers and keywords the tables hold
+(chosen over `toUTF8` because it reduces by `decide`/`rfl`) -/
+def Str.ofString (s : String) : Str := s.toList.map Char.toNat
 
 end Sylvia
